@@ -158,7 +158,7 @@ func TestC08(t *testing.T) {
 		return
 	}
 
-	r.Rapid(t, "faults", vf.N(500, 250000), func(t *rapid.T) {
+	r.Rapid(t, "faults", vf.N(1200, 250000), func(t *rapid.T) {
 		frame, kind := genCompleteFrame(t, rapid.IntRange(0, 2).Draw(t, "small") > 0)
 		var cuts []int
 		if len(frame) <= 512 {
